@@ -421,7 +421,8 @@ func TestDataCodecs(t *testing.T) {
 		// entity uids that collide under a naive rendering (type and id concatenated without quoting / escaping)
 		if rapid.IntRange(0, 2).Draw(rt, "hostileuids") > 0 {
 			pool := []ir.Value{ir.Ent("A::B", "c"), ir.Ent("A", "B::c"), ir.Ent("A", "b\"c"), ir.Ent("A", "b\\\"c"), ir.Ent("A::B::C", ""), ir.Ent("A::B", "C::"), ir.Ent("A", "B::C::"),
-				ir.Ent("A", "x\"::A::\"y"), ir.Ent("A", "x"), ir.Ent("A", "X"), ir.Ent("a", "x"), ir.Ent("A", "x "), ir.Ent("A", " x")}
+				ir.Ent("A", "x\"::A::\"y"), ir.Ent("A", "x"), ir.Ent("A", "X"), ir.Ent("a", "x"), ir.Ent("A", "x "), ir.Ent("A", " x"),
+				ir.Ent("AB", "C"), ir.Ent("A", "BC"), ir.Ent("Team", "Admins"), ir.Ent("TeamAdmin", "s"), ir.Ent("A::B", "::c"), ir.Ent("A::B::", "c")}
 			perm := rapid.Permutation(pool).Draw(rt, "hostileperm")
 			n := rapid.IntRange(2, len(pool)).Draw(rt, "nhostile")
 			for i, uid := range perm[:n] {
@@ -434,6 +435,8 @@ func TestDataCodecs(t *testing.T) {
 				}
 				w.Store = append(w.Store, e)
 			}
+			// one entity whose parents are all of the chosen uids (ties in any naive parent ordering become visible)
+			w.Store = append(w.Store, ir.Entity{UID: ir.Ent("A", "child-of-all"), Parents: append([]ir.Value{}, perm[:n]...)})
 		}
 		c := &Case{Family: "data-codec", World: &w, R: R()}
 		o := gen.DefaultValOpts
